@@ -12,6 +12,8 @@ import (
 // exec executes one instruction; returns true if the block ends here.
 func (fr *Frame) exec(ins ssa.Instruction) bool {
 	b, w := fr.b(), fr.w()
+	innerSize := 0
+	_ = innerSize
 	switch n := ins.(type) {
 	case *ssa.DebugRef:
 		// source-level names of locals become available to loop invariants and step clauses
@@ -27,6 +29,8 @@ func (fr *Frame) exec(ins ssa.Instruction) bool {
 					if pt, ok := n.X.Type().Underlying().(*types.Pointer); ok {
 						fr.localVars[obj.Name()] = Val{t: v.t, typ: pt.Elem(), isAddr: true}
 					}
+				} else if cur, ok := fr.localVars[obj.Name()]; ok && cur.isAddr && fr.allocNames[obj.Name()] {
+					// the variable lives in an allocation (its address is taken): keep naming the cell, not this value
 				} else {
 					v.typ = n.X.Type()
 					fr.localVars[obj.Name()] = v
@@ -42,6 +46,19 @@ func (fr *Frame) exec(ins ssa.Instruction) bool {
 			fr.cx.allocType = map[int]types.Type{}
 		}
 		fr.cx.allocType[fr.cx.newN] = el
+		if n.Comment != "" && n.Comment != "complit" && !strings.Contains(n.Comment, ".") {
+			// address-taken local variable: invariants and step clauses refer to its cell by name
+			if fr.localVars == nil {
+				fr.localVars = map[string]Val{}
+			}
+			if fr.allocNames == nil {
+				fr.allocNames = map[string]bool{}
+			}
+			if _, isParam := fr.vars[n.Comment]; !isParam {
+				fr.localVars[n.Comment] = Val{t: loc, typ: el, isAddr: true}
+				fr.allocNames[n.Comment] = true
+			}
+		}
 		fr.zeroInit(loc, el)
 		fr.vals[n] = Val{t: loc, typ: n.Type()}
 	case *ssa.BinOp:
@@ -230,7 +247,24 @@ func (fr *Frame) exec(ins ssa.Instruction) bool {
 			v.typ = r.Type()
 			rs = append(rs, v)
 		}
-		fr.rets = append(fr.rets, &retRec{reach: fr.reach, results: rs, st: fr.st, blk: n.Block()})
+		rr := &retRec{reach: fr.reach, results: rs, st: fr.st, blk: n.Block()}
+		// a return inside a loop with invariant: iter(e) in postconditions is the value at the head of that (last) iteration
+		var inner *loopState
+		var innerHead *ssa.BasicBlock
+		for h, ls := range fr.loopHead {
+			if ls == nil || ls.unroll || ls.headSt == nil || !h.Dominates(n.Block()) {
+				continue
+			}
+			// innermost: the head that all other candidates dominate
+			if inner == nil || innerHead.Dominates(h) {
+				inner, innerHead = ls, h
+			}
+		}
+		if inner != nil {
+			rr.iterSt = inner.headSt
+			rr.iterVars = inner.entryVars
+		}
+		fr.rets = append(fr.rets, rr)
 		return true
 	case *ssa.Panic:
 		fr.safety("panic", n.Pos(), b.False())
